@@ -1,6 +1,7 @@
 package worker
 
 import (
+	"net/http"
 	"strconv"
 	"strings"
 	"sync"
@@ -118,7 +119,9 @@ type kernel struct {
 	donefd   [2]int
 	foreign  int
 
+	clientsWrapped int
 	setupChain chan struct{}
+	clientHook func(c *http.Client) *http.Client
 }
 
 const (
@@ -221,7 +224,7 @@ func newKernel(p *plan.Plan) *kernel {
 }
 
 func (k *kernel) hooks() *simrt.Hooks {
-	h := &simrt.Hooks{MapOrder: k.mapOrder, Open: simOpen, Foreign: k.foreignSeen}
+	h := &simrt.Hooks{MapOrder: k.mapOrder, Open: simOpen, Foreign: k.foreignSeen, Client: k.clientHook}
 	if k.mode == "race" {
 		h.Yield = k.yieldRace
 		h.Go = k.goChain
@@ -236,6 +239,9 @@ func (k *kernel) hooks() *simrt.Hooks {
 }
 
 func (k *kernel) foreignSeen(site int) { k.foreign++ }
+
+//go:norace
+func (k *kernel) clientWrapped() { k.clientsWrapped++ }
 
 // ---------------------------------------------------------------- map order
 
